@@ -25,8 +25,9 @@ verdict = the property oracle on the implementation's answer:
   `decbl <style> <hex url> <hex params> <hex string> <table>\tlcells` — `NewStyledString` with the hyperlink fields on the exact string, default
    style carrying the given hyperlink: model = `VaxisModel.Model.SgrLinks.newStyledStringBL` (what `roundtrip_ss_links_full_bytes` is about).
   `agr <body>\t<ParseStyledString's style>|<NewStyledString's style>|<emulator pen>` (round 4) — the three real consumers on `ESC [ body m a` from the
-   zero style; model = the three models; oracle: never `panic`, and when `Model.Sgr.agreeExact` holds for the parameter list
-   (`Props.C18Agree.consumers_agree_iff`: exactly the lists read identically from every style; far larger than the producers' range) the three styles are equal.
+   zero style; model = the three models; oracle: never `panic` (any list), equal styles on producible sequences (the property text); that the three
+   real consumers agree exactly on `Model.Sgr.agreeExact` (`Props.C18Agree.consumers_agree_iff`, far beyond the producers' range) is validated through model ≡ implementation of the
+   three columns, not demanded by the verdict (a consumer changed outside the producers' range is not a violation of the property).
   `rdf <caps> <table> <cell>*\t<cells ParseStyledString returned>|<cells NewStyledString returned>` (round 4) — the SGR and text bytes of a REAL
    rendered frame fed to the real string parsers; model = `parseStyledB` / `newStyledStringB` on `renderFromB` (cluster oracle = the table);
    oracle: same graphemes, and every style shows what a terminal with these capabilities shows for the cell (`shownCaps`) —
@@ -355,12 +356,14 @@ def stepAgr (body : String) (impl : String) : String :=
   let m := s!"{sty (parseSGR {} q)}|{sty (ssSeq {} {} q)}|{sty (emuSgr {} q)}"
   let verdict :=
     if (impl.splitOn "|").any (· = "panic") then "FAIL panic"
-    else if !cleanBody body || !agreeExact q then "ok"
+    else if !cleanBody body || !emittableLegacy q then "ok"
     else
+      -- the property text demands agreement only on what the library produces; beyond that (`agreeExact`, `consumers_agree_iff`)
+      -- agreement of the real consumers is validated through the correspondence model ≡ implementation of all three columns
       match impl.splitOn "|" with
       | [a, b, c] =>
         if a = b ∧ b = c then "ok"
-        else s!"FAIL the consumers disagree on a list on which they agree from every style (agreeExact): ParseStyledString {a}, NewStyledString {b}, emulator {c}"
+        else s!"FAIL the consumers disagree on a producible sequence: ParseStyledString {a}, NewStyledString {b}, emulator {c}"
       | _ => s!"FAIL unparsable {impl}"
   s!"{m}\t{impl}\t{verdict}"
 
